@@ -608,3 +608,95 @@ func checkEveryRowPrints(c *core.Ctx, t *InstTables) {
 		}
 	}
 }
+
+// checkVOPCDestinationText (R04.36): a VOPC compare in its 32-bit encoding writes VCC, its
+// v_cmpx form EXEC; the disassembly names that destination. The VOPC printer is followed per row
+// of the table with the tests of the opcode (constants folded) and of the mnemonic decided; of the
+// two names it can print, the one that remains must be the one the row's mnemonic implies.
+func checkVOPCDestinationText(c *core.Ctx, t *InstTables) {
+	st := c.Rule("R04.36", "the disassembly of a VOPC compare names the register it writes: exec for the v_cmpx_* rows of the decode tables, vcc for every other row. The VOPC printer function is followed per row with its tests of the opcode (integer expressions over the opcode folded) and of the mnemonic decided; every merge of the string constants \"vcc\" / \"exec\" it prints must, on the edges that remain, carry exactly the name the row's mnemonic implies. A rule on opcode bits that holds for most compare groups still prints v_cmp_class_f32 with exec", 150)
+	pi := NewPkgInfo(c, instsPkg)
+	prt := c.SSAFunc(instsPkg, "InstPrinter.Print")
+	if pi.Pkg == nil || prt == nil {
+		return
+	}
+	var vopcK int64 = -1
+	if k, ok := pi.Pkg.Pkg.Scope().Lookup("VOPC").(*types.Const); ok {
+		vopcK, _ = constant.Int64Val(k.Val())
+	}
+	var p *ssa.Function
+	for _, b := range opReach(prt, isLoadOfField("FormatType"), vopcK) {
+		for _, in := range b.Instrs {
+			if cc := core.CallOf(in); cc != nil {
+				if f := cc.StaticCallee(); f != nil && f.Pkg == pi.Pkg && strings.HasSuffix(f.Name(), "String") && len(f.Blocks) > 0 {
+					p = f
+				}
+			}
+		}
+	}
+	if p == nil {
+		c.Report(core.Finding{Rule: "R04.36", Kind: "anchor", Pkg: instsPkg, Func: "InstPrinter.Print", Detail: "vopc-printer", Msg: "the printer function of the VOPC format was not found"})
+		return
+	}
+	regName := func(v ssa.Value) string {
+		k, ok := v.(*ssa.Const)
+		if !ok || k.Value == nil || k.Value.Kind() != constant.String {
+			return ""
+		}
+		s := constant.StringVal(k.Value)
+		if s == "vcc" || s == "exec" {
+			return s
+		}
+		return ""
+	}
+	seen := map[int64]bool{}
+	for _, r := range t.Rows {
+		if r.Format != "VOPC" || seen[r.Opcode] {
+			continue
+		}
+		seen[r.Opcode] = true
+		name := strings.TrimSpace(r.Name)
+		want := "vcc"
+		if strings.Contains(name, "cmpx") {
+			want = "exec"
+		}
+		blocks, taken := rowReachEdges(p, r.Opcode, name)
+		got := map[string]bool{}
+		merges := 0
+		for _, b := range blocks {
+			for _, in := range b.Instrs {
+				phi, ok := in.(*ssa.Phi)
+				if !ok {
+					break
+				}
+				isReg := false
+				for _, e := range phi.Edges {
+					if regName(e) != "" {
+						isReg = true
+					}
+				}
+				if !isReg {
+					continue
+				}
+				merges++
+				for i, e := range phi.Edges {
+					if taken[[2]*ssa.BasicBlock{b.Preds[i], b}] {
+						if n := regName(e); n != "" {
+							got[n] = true
+						} else {
+							got["?"] = true
+						}
+					}
+				}
+			}
+		}
+		st.Instances++
+		c.MarkAnalysed(p)
+		ok := merges > 0 && len(got) == 1 && got[want]
+		st.Ob(ok)
+		if !ok {
+			c.Report(core.Finding{Rule: "R04.36", Pkg: instsPkg, Func: core.FuncName(p), Detail: fmt.Sprintf("vopc-destination:%s", name), Pos: c.Position(r.Pos),
+				Msg: fmt.Sprintf("%s (VOPC opcode %d) is printed with destination %v; the instruction writes %s", name, r.Opcode, sortedKeys(got), want)})
+		}
+	}
+}
